@@ -256,7 +256,7 @@ def r06_4(ctx):
             "HEX": lambda s: "hex(int(" in s and ", 16)" in s}, "CMake: n as empty, quoted strings, 0x hex"),
         ("esp_kconfiglib.deprecated:DeprecatedOptions._deprecated_config_string", {
             "BOOL": lambda s: "is not set" in s, "STRING": lambda s: "_escape(" in s,
-            "HEX": lambda s: "'0x' +" in s or '"0x" +' in s}, "deprecated aliases mirror config_string"),
+            "HEX": lambda s: "'0x' +" in s or '"0x" +' in s or "f'0x{" in s or 'f"0x{' in s}, "deprecated aliases mirror config_string"),
         ("kconfserver.core:handle_set", {
             "BOOL": lambda s: "set_value(2)" in s and "set_value(0)" in s,
             "HEX": lambda s: "int(val, 16)" in s and "hex(val)" in s,
@@ -318,7 +318,7 @@ def r06_5(ctx):
                 where = f.loc(n)
                 if "hex(int(" in src and ", 16)" in src:
                     ok = True
-                if ("startswith(('0x', '0X'))" in tsrc or "startswith(('0x', '0X'))" in src) and ("'0x' +" in src):
+                if ("startswith(('0x', '0X'))" in tsrc or "startswith(('0x', '0X'))" in src) and ("'0x' +" in src or "f'0x{" in src):
                     ok = True
         (ctx.ok(construct, where) if ok else ctx.bad(construct, "the HEX arm does not ensure a 0x prefix", where))
 
